@@ -23,6 +23,11 @@ BUILDS = {
                        'UBSAN_OPTIONS': 'print_stacktrace=1:halt_on_error=0'}),
     'tsan': dict(cxx='g++', flags=['-O1', '-fsanitize=thread'], libs=['-pthread'],
                  env={'TSAN_OPTIONS': 'halt_on_error=0:exitcode=96:second_deadlock_stack=1'}),
+    # coverage-guided: libFuzzer mutates the byte stream that feeds the harness' generators (same monitors)
+    'fuzz': dict(cxx='clang++-14', flags=['-O1', '-fsanitize=fuzzer,address,undefined', '-fno-sanitize=object-size',
+                                          '-fno-sanitize-recover=address', '-DVF_FUZZ'],
+                 env={'ASAN_OPTIONS': 'abort_on_error=0:detect_leaks=0:exitcode=98',
+                      'UBSAN_OPTIONS': 'print_stacktrace=1:halt_on_error=0'}),
     'plain': dict(cxx='g++', flags=['-O2'], env={}),
     'plain1': dict(cxx='g++', flags=['-O1'], env={}),
     'memcheck': dict(cxx='g++', flags=['-O1'], env={},
@@ -130,9 +135,16 @@ class Check:
             sig = os.path.join(self.bdir, tag + '.sig')
             argv = [r['exe'], '--seed', str(self.seed), '--tier', self.tier, '--shard', '%d/%d' % (sh, r['shards']),
                     '--sigfile', sig, '--variant', r['variant']] + list(r.get('args', ()))
-            if self.replay_only is not None:
+            env = r.get('env')
+            if r['build'] == 'fuzz':
+                corpus = os.path.join(self.bdir, tag + '.corpus')
+                os.makedirs(corpus, exist_ok=True)
+                argv = [r['exe'], '-runs=%d' % r.get('fuzz_runs', 20000), '-seed=%d' % (self.seed * 1000 + sh + 1), '-max_len=2048',
+                        '-rss_limit_mb=6000', '-timeout=120', '-artifact_prefix=' + os.path.join(self.bdir, tag + '.'), corpus]
+                env = dict(env or {}, VERIF_SEED=str(self.seed), VF_SIGFILE=sig, VF_VARIANT=r['variant'])
+            elif self.replay_only is not None:
                 argv += ['--case', str(self.replay_only)]
-            rc, outf, errf = self.run_proc(argv, r['build'], tag, r.get('env'))
+            rc, outf, errf = self.run_proc(argv, r['build'], tag, env)
             return r, sh, rc, outf, errf, sig, argv
 
         with cf.ThreadPoolExecutor(NCPU) as ex:
@@ -152,6 +164,8 @@ class Check:
         for pr in programs:
             if self.tier not in pr.get('tiers', ('quick', 'thorough')):
                 continue
+            if pr['build'] == 'fuzz' and self.replay_only is not None:
+                continue
             stem = os.path.splitext(os.path.basename(pr['src']))[0]
             for vname, defs in pr.get('variants', T_VARIANTS):
                 if self.replay_only is not None and self.replay_filter and \
@@ -163,7 +177,7 @@ class Check:
                                  extra_flags=pr.get('extra_flags', ())))
                 sh = pr.get('shards', {}).get(self.tier, 1)
                 runs.append(dict(exe=out, build=pr['build'], variant=vname, shards=sh, args=pr.get('args', ()),
-                                 env=pr.get('env'), src=pr['src']))
+                                 env=pr.get('env'), src=pr['src'], fuzz_runs=pr.get('fuzz_runs', {}).get(self.tier, 20000)))
         tb = time.time()
         self.build_all(jobs)
         self.extra['build_s'] = round(time.time() - tb, 1)
